@@ -530,6 +530,24 @@ class Fn:
         if k == "un":
             return {"kind": "un", "op": rv["op"], "a": self.origin(rv["a"], depth - 1)}
         if k == "agg":
+            # a field projection on a freshly built tuple / struct is the corresponding operand
+            if proj and isinstance(proj[0], str) and proj[0].startswith("."):
+                fld = proj[0][1:]
+                idx = None
+                if "tuple" in rv and fld.isdigit():
+                    idx = int(fld)
+                elif "fields" in rv and fld in rv["fields"]:
+                    idx = rv["fields"].index(fld)
+                elif "closure" in rv and fld.isdigit():
+                    idx = int(fld)
+                if idx is not None and idx < len(rv["ops"]):
+                    o = dict(self.origin(rv["ops"][idx], depth - 1))
+                    rest = proj[1:]
+                    if rest:
+                        o["proj"] = list(o.get("proj", [])) + rest
+                        if "place" in o:
+                            o["place"] = o["place"] + "".join(x if x != "*" else ".*" for x in rest)
+                    return o
             return {"kind": "agg", "rv": rv, "bb": b}
         return {"kind": "unknown", "rv": k}
 
